@@ -40,7 +40,17 @@ func TestC04(t *testing.T) {
 			Start: starts[(i/len(retries))%len(starts)], End: ends[(i/(len(retries)*len(starts)))%len(ends)], Faults: rnd.Intn(5)}
 		cases = append(cases, mon.CaseSpec{Name: fmt.Sprintf("%s/%s/r%d", sp.Start, sp.End, sp.RetryMs), Spec: sp})
 	}
-	r.Run(cases, func(c *mon.Case) { runScript(c, c.Spec.(spec)) })
+	for i := 0; i < n/6; i++ {
+		cases = append(cases, mon.CaseSpec{Name: "multictx", Spec: spec{NCtx: 2 + rnd.Intn(4), NPipes: 1 + rnd.Intn(3), RetryMs: 3600000, Start: "multictx"}})
+	}
+	r.Run(cases, func(c *mon.Case) {
+		sp := c.Spec.(spec)
+		if sp.Start == "multictx" {
+			runMultiCtx(c, sp)
+			return
+		}
+		runScript(c, sp)
+	})
 }
 
 type dropEv struct {
@@ -50,9 +60,13 @@ type dropEv struct {
 }
 
 type token struct {
-	L     time.Duration
+	L     time.Duration // lower bound of the time the retry timer was armed
+	U     time.Duration // upper bound of it (the transmission that armed it was observed at U)
 	valid bool
 }
+
+// window is a period during which the request sat queued because no peer was connected.
+type window struct{ start, end time.Duration }
 
 func runScript(c *mon.Case, sp spec) {
 	R := time.Duration(sp.RetryMs) * time.Millisecond
@@ -86,13 +100,17 @@ func runScript(c *mon.Case, sp spec) {
 	// settle: with retries disabled a request handed to a connection that is being torn down is
 	// legitimately cancelled, so when R == 0 the script waits until the library has detached a
 	// dropped pipe before it goes on (with R > 0 the race is left in: the request must be re-sent).
+	awaitDetached := func() {
+		n := ndropped
+		c.AwaitOrViolate("harness:detach-stuck", "dropped vt pipe being detached", func() bool { return rig.Watch.Detached() >= n }, mon.AwaitOpts{})
+	}
 	settle := func() {
 		ndropped++
 		if R == 0 {
-			n := ndropped
-			c.AwaitOrViolate("harness:detach-stuck", "dropped vt pipe being detached", func() bool { return rig.Watch.Detached() >= n }, mon.AwaitOpts{})
+			awaitDetached()
 		}
 	}
+	var windows []window
 	if sp.Start == "held" {
 		for _, p := range rig.Pipes {
 			p.HoldSends()
@@ -230,6 +248,25 @@ func runScript(c *mon.Case, sp spec) {
 					ev("drop other pipe at %v", t)
 					break
 				}
+			}
+		case x < 7 && c.Rand.Intn(2) == 0 && R > 0 && R < time.Hour:
+			// no peer at all for several retry intervals: the request waits in the queue, retry timers
+			// expire meanwhile, and when a peer finally connects it is transmitted ONCE
+			for _, p := range live {
+				t := p.Drop()
+				drops = append(drops, &dropEv{pipe: p, t: t})
+				ndropped++
+			}
+			awaitDetached()
+			w := window{start: mon.Now()}
+			mon.Sleep(5*R/2 + 60*time.Millisecond)
+			w.end = mon.Now()
+			windows = append(windows, w)
+			events += "W"
+			ev("no peer from %v to %v", w.start, w.end)
+			rig.AddPipe()
+			if !expectResend("connection-loss", n) {
+				return
 			}
 		case x < 7:
 			rig.AddPipe()
@@ -406,12 +443,22 @@ func runScript(c *mon.Case, sp spec) {
 		}
 	}
 	tokens := []*token{}
-	if R > 0 {
-		tokens = append(tokens, &token{L: L0, valid: true})
+	if R > 0 && len(all) > 0 {
+		tokens = append(tokens, &token{L: L0, U: all[0].T, valid: true})
 	}
+	slack := 50*time.Millisecond + 20*mon.CanaryWorst()
 	for j := 1; j < len(all); j++ {
 		tx := all[j]
 		prev := all[j-1]
+		// a timer that certainly expired while the request was waiting in the queue with no peer
+		// connected is covered by the one transmission made when a peer arrives
+		for _, tk := range tokens {
+			for _, w := range windows {
+				if tk.valid && w.end <= tx.T && tk.U+R+slack <= w.end {
+					tk.valid = false
+				}
+			}
+		}
 		cause := ""
 		var L time.Duration
 		for _, d := range drops {
@@ -454,7 +501,13 @@ func runScript(c *mon.Case, sp spec) {
 			}
 		}
 		if R > 0 {
-			tokens = append(tokens, &token{L: L, valid: true})
+			// the timer is armed when the request is handed to a ready pipe: not before that pipe existed
+			rig.Mu.Lock()
+			if ct := rig.ConnT[tx.Pipe]; ct > L {
+				L = ct
+			}
+			rig.Mu.Unlock()
+			tokens = append(tokens, &token{L: L, U: tx.T, valid: true})
 		}
 	}
 	for _, b := range rig.Bad {
@@ -515,4 +568,63 @@ func renderTx(all []hx.WireTx) string {
 		s += fmt.Sprintf("[#%d pipe %d t=%v] ", j, tx.PipeN, tx.T)
 	}
 	return s
+}
+
+// runMultiCtx: several contexts have a request outstanding on the SAME connection when it closes;
+// every one of them must be re-sent to a ready peer at once (RetryTime is one hour, so only the
+// connection loss can cause it).
+func runMultiCtx(c *mon.Case, sp spec) {
+	rig := hx.NewReqRig(c, "req", sp.NCtx, 1)
+	if c.Failed() {
+		return
+	}
+	rig.SetAll(mangos.OptionRetryTime, time.Hour)
+	for i := 0; i < sp.NCtx; i++ {
+		i := i
+		k := mon.Go("Send", func() (interface{}, error) { return nil, rig.Ctxs[i].Send(rig.ReqBody(i, 1)) })
+		if !c.AwaitOrViolate("req/send-stuck", fmt.Sprintf("ctx %d Send", i), k.Done, mon.AwaitOpts{}) {
+			return
+		}
+		if _, ok := rig.AwaitTx(i, 1, 1, 0, "req/request-not-transmitted"); !ok {
+			return
+		}
+	}
+	first := rig.Pipes[0]
+	for i := 0; i < sp.NPipes; i++ {
+		rig.AddPipe()
+	}
+	t := first.Drop()
+	c.Logf("dropped the connection carrying %d outstanding requests at %v", sp.NCtx, t)
+	for i := 0; i < sp.NCtx; i++ {
+		txs, ok := rig.AwaitTx(i, 1, 2, 0, "req/no-resend-after-connection-loss:several-contexts")
+		if !ok {
+			return
+		}
+		if !bytes.Equal(txs[1].Wire, txs[0].Wire) {
+			c.Violate("req/retransmission-differs", "ctx %d: retransmission differs from the first transmission", i)
+		}
+		if txs[1].T < t {
+			c.Violate("req/resend-too-soon", "ctx %d: re-sent at %v, before its connection was dropped at %v, with a one hour retry time", i, txs[1].T, t)
+		}
+		if len(txs) > 2 {
+			c.Violate("req/resend-too-soon", "ctx %d: %d transmissions for one connection loss: %s", i, len(txs), renderTx(txs))
+		}
+		c.Count("retransmissions_close", 1)
+	}
+	// all complete once answered
+	for i := 0; i < sp.NCtx; i++ {
+		i := i
+		txs := rig.TxsOf(i, 1)
+		live := rig.LivePipes()
+		live[i%len(live)].Inject(hx.ReplyWire(txs[0].ID, 100+i))
+		k := mon.Go("Recv", func() (interface{}, error) { b, e := rig.Ctxs[i].Recv(); return b, e })
+		if !c.AwaitOrViolate("req/recv-stuck-at-answer", fmt.Sprintf("ctx %d Recv of its reply", i), k.Done, mon.AwaitOpts{}) {
+			return
+		}
+		if v, e, _ := k.Result(); e != nil || !bytes.Equal(v.([]byte), hx.ReplyWire(txs[0].ID, 100+i)[4:]) {
+			c.Violate("req/answered-recv-failed", "ctx %d: Recv returned %q, %v", i, v, e)
+		}
+	}
+	c.Nontrivial()
+	c.Sig("multictx|%d|%d", sp.NCtx, sp.NPipes)
 }
